@@ -618,6 +618,10 @@ theorem stepOpt_sim (s : CliSpec) (strs : List (String × Target)) (o : OptSpec)
       simp only [Run.avail, Run.dropFront, runFlags, lastAction]
       have hdd1 : "--" ∉ [t] := by
         intro hm; simp at hm; exact hdd (by simp [hm])
+      have hne : ([t] == ["--"]) = false := by
+        simp only [beq_eq_false_iff_ne, ne_eq, List.cons.injEq, and_true]
+        intro e; exact hdd1 (by simp [e])
+      simp only [hne, Bool.false_eq_true, if_false]
       rw [List.erase_of_not_mem hdd1, takeAction_std s o hstd [t] (Or.inl (by simp)) st]
       cases bindOne o [t] with
       | ok b => simp [Except.map]
@@ -627,6 +631,10 @@ theorem stepOpt_sim (s : CliSpec) (strs : List (String × Target)) (o : OptSpec)
     | nil => simp [Run.avail, liftErr]
     | cons t rest =>
       simp only [Run.avail, Run.dropFront, runFlags, lastAction]
+      have hne : ((t :: rest) == ["--"]) = false := by
+        simp only [beq_eq_false_iff_ne, ne_eq, List.cons.injEq, not_and]
+        intro e; exact absurd (by simp [e]) hdd
+      simp only [hne, Bool.false_eq_true, if_false]
       rw [List.erase_of_not_mem hdd, takeAction_std s o hstd (t :: rest) (Or.inl (by simp)) st]
       cases bindOne o (t :: rest) with
       | ok b => simp [Except.map]
